@@ -430,6 +430,9 @@ CfgOf(crc, large, idW, seqW, mode, dir) ==
 CfgAll == {CfgOf(c, l, i, s, m, 0) : c \in 0..1, l \in 0..1, i \in Widths, s \in Widths, m \in 0..1}
 CfgFew == {CfgOf(c, l, 1, 2, 0, d) : c \in 0..1, l \in 0..1, d \in 0..1}
           \cup {[CfgOf(1, 1, 8, 8, 1, 1) EXCEPT !.src = IdFF(8), !.dst = Id80(8), !.seq = IdFF(8)]}
+          \* record boundaries preserved (segmentation control bit set): the bit shares an octet with the ID width
+          \cup {[CfgOf(c, 0, w[1], w[2], 0, 0) EXCEPT !.segctrl = 1] : c \in 0..1, w \in {<<1, 1>>, <<2, 8>>, <<8, 2>>}}
+CfgAllS == CfgAll \cup {[c EXCEPT !.segctrl = 1] : c \in {CfgOf(0, 0, 1, 1, 0, 0), CfgOf(1, 1, 4, 2, 1, 0), CfgOf(0, 1, 8, 8, 0, 0)}}
 
 HdrGrid(idW, seqW) ==
   {[type |-> t, dir |-> d, mode |-> m, crc |-> c, large |-> l, dlen |-> n, segctrl |-> sc, segmeta |-> sm,
@@ -561,13 +564,13 @@ ParamFew(kind) ==
 PduNParts == 16
 PduGridPart(i) ==
   LET kind == KindOrder[((i - 1) % 8) + 1] IN
-  IF i <= 8 THEN {[op |-> "pdu.rt", a |-> [kind |-> kind, cfg |-> c, p |-> p, sfx |-> <<>>]] : c \in CfgAll, p \in ParamFew(kind)}
+  IF i <= 8 THEN {[op |-> "pdu.rt", a |-> [kind |-> kind, cfg |-> c, p |-> p, sfx |-> <<>>]] : c \in CfgAllS, p \in ParamFew(kind)}
   ELSE {[op |-> "pdu.rt", a |-> [kind |-> kind, cfg |-> c, p |-> p, sfx |-> <<>>]] : c \in CfgFew, p \in ParamGrid(kind)}
 
 FacNParts == 9
 FacGridPart(i) ==
   IF i <= 8 THEN {[op |-> "pdu.fac", a |-> [kind |-> KindOrder[i], cfg |-> c, p |-> p, sfx |-> <<>>]] :
-                    c \in CfgAll, p \in ParamFew(KindOrder[i])}
+                    c \in CfgAllS, p \in ParamFew(KindOrder[i])}
   ELSE UNION {{[op |-> "holder.matrix", a |-> [kind |-> KindOrder[k], cfg |-> CfgOf(1, 0, 2, 1, 0, 0), p |-> p]] :
                  p \in ParamFew(KindOrder[k])} : k \in 1..8}
        \cup {[op |-> "fd.maxseg", a |-> [cfg |-> c, maxlen |-> n, meta |-> m]] :
